@@ -35,6 +35,7 @@ class Engine:
         s.stats = dict(ins=0, forks=0, merges=0, loopchk=0)
         s.fn_ins = {}           # function -> instruction instances executed
         s.cviol = []            # concrete-mode violations
+        s.input_order = []      # concrete mode: inputs in the order they were consumed (for native re-execution)
         s.trace = []            # concrete-mode trace
         s.feas = None; s.feas_n = [0, 0]
         s.typeids = {}
@@ -356,7 +357,9 @@ class Engine:
         return s.input(nm, w)
     def input(s, nm, w):
         if s.concrete is not None:
-            return mask(int(s.concrete['inputs'].get(nm, 0)), w)
+            v = mask(int(s.concrete['inputs'].get(nm, 0)), w)
+            s.input_order.append((nm.split('!')[0], w, v))
+            return v
         v = s.inputs.get(nm)
         if v is None: v = z3.BitVec(nm, w); s.inputs[nm] = v
         return v
